@@ -236,7 +236,11 @@ def float_refinements(h: Harness):
     C = gram.ClassSpec
     spec = gram.Spec([C("A0", True, None), C("Leaf", False, 0, [("x", ("ann", "float", "floatRange")), ("k", ("ann", "int", ("intRange", 0, 3)))]),
                       C("Pick", False, 0, [("y", ("ann", "float", ("floatList", 4)))]),
-                      C("Node", False, 0, [("l", ("cls", 0)), ("r", ("cls", 0)), ("z", ("ann", "float", "floatRange"))])], 0, [1, 2, 3])
+                      C("Node", False, 0, [("l", ("cls", 0)), ("r", ("cls", 0)), ("z", ("ann", "float", "floatRange"))]),
+                      # integer refinements wider than the 0..1024 a freshly created dynamic-SGE gene covers
+                      C("Wide", False, 0, [("w", ("ann", "int", ("intRange", -3000, 3000))), ("iv", ("ann", ("tuple", "int", "int"), ("interval", 5, 10, 5000))),
+                                           ("n", ("ann", "int", ("intList", [7, 70000, -9])))])], 0, [1, 2, 3, 4])
+    line_spec = gram.spec_sx(spec)
     b = gram.build(spec)
     g = b.extract()
     rng = h.rng
@@ -279,15 +283,54 @@ def float_refinements(h: Harness):
                         h.fail(f"{name}.genotype_to_phenotype", "refinement-violated",
                                f"after {step} variation steps: {bad[0]} ({len(bad)} fields)", [name, trial, step])
                         break
+                    c = gram.canon(p, b)
+                    h.holds(f"{name}.genotype_to_phenotype", "refinement-violated", ["prop_wt", line_spec, c],
+                            f"after {step} variation steps the program violates a refinement (or is ill-typed): {sx(c)[:200]}", [name, trial, step],
+                            nontrivial=count_refined(sx(c)) >= 2)
                 st, nxt = safe(lambda: rep.mutate(shared, geno) if step % 3 != 2 else rep.crossover(shared, geno, prev)[0])
                 if st != "ok":
                     break
                 prev, geno = geno, nxt
 
 
+def foreign_options(h: Harness):
+    """VarRange whose options are not strings although the field is declared `str` (class labels from a dataset, as the geml
+    rule-set classifier passes them): the generated value is ONE OF THE OPTIONS, as given"""
+    import ctxgrammar
+    from ctxgrammar import Klass
+    from linear import DSGE, GE, SGE, safe
+    from geneticengine.random.sources import NativeRandomSource
+    from geneticengine.representations.tree.treebased import TreeBasedRepresentation
+    options = ctxgrammar.LABELS
+    g = ctxgrammar.labels_grammar()
+    rng = h.rng
+
+    def bad(p):
+        if isinstance(p, Klass):
+            return [] if any(p.value is o or (type(p.value) is type(o) and p.value == o) for o in options) else [p.value]
+        return bad(p.l) + bad(p.r)
+    for trial in range(h.n(5, 40)):
+        r = NativeRandomSource(rng.randrange(10**6))
+        for name, rep in (("tree", TreeBasedRepresentation(g, synth.make_decider("grow", 4, r, g))), ("GE", GE(g, synth.make_decider("grow", 4, r, g), gene_length=32)),
+                          ("SGE", SGE(g, synth.make_decider("grow", 4, r, g), gene_length=32)), ("DynamicSGE", DSGE(g, 4))):
+            st, geno = safe(lambda: rep.create_genotype(r))
+            if st != "ok":
+                continue
+            st, p = safe(lambda: rep.genotype_to_phenotype(geno))
+            if st != "ok":
+                continue
+            h.count(f"foreign-options:{name}")
+            h.seen(f"foreign-options:{name}:{trial}", nontrivial=True)
+            wrong = bad(p)
+            if wrong:
+                h.fail("VarRange.generate", "generated-value-violates-refinement",
+                       f"VarRange({options}) on a field declared str generated {wrong[0]!r}, which is not one of its options ({name})", [name, trial])
+
+
 def run(h: Harness):
     boxes(h)
     float_refinements(h)
+    foreign_options(h)
     sibling_isolation(h)
     # a refinement re-declared on an already used class (the documented `Cls.__init__.__annotations__[f] = ...` idiom):
     # the next grammar must generate from the NEW refinement
